@@ -12,10 +12,11 @@ LAYOUTS = {
     'encryption-only': (('idpAenc', 'encryption'),),
     'signing+encryption': (('idpA', 'signing'), ('idpAenc', 'encryption')),
     'useless': (('idpA', None),),
+    'expired-signing': (('idpAexp', 'signing'),),
     'none': (),
 }
 ISSUERS = {'A': IDP_A, 'B': IDP_B, 'unknown': 'urn:vp:nobody', 'absent': None}
-KEYS = ('idpA', 'idpA2', 'idpAenc', 'idpB', 'mallory')
+KEYS = ('idpA', 'idpA2', 'idpAenc', 'idpB', 'mallory', 'idpAexp')
 KEYINFO = ('none', 'x509-actual', 'x509-idpA', 'rsakv-actual')
 ONLY = (True, None, False)
 
@@ -34,7 +35,16 @@ def cells(thorough):
     for layout, iss, key, ki, what in itertools.product(LAYOUTS, ISSUERS, KEYS, KEYINFO, ('response', 'assertion')):
         if not thorough and layout == 'signing+encryption' and ki != 'none':
             continue
+        if key == 'idpAexp' and layout not in ('expired-signing', 'one-signing', 'none'):
+            continue
         out.append((layout, iss, iss, key, ki, what))
+    # non-initial store state: the application (or the library's own encryption path) has looked up the
+    # issuer's encryption certificates first
+    for layout, key, what in itertools.product(('signing+encryption', 'encryption-only', 'one-signing'), KEYS[:5], ('response', 'assertion')):
+        out.append((layout, 'A', 'A', key, 'none', what + '@after-encryption-lookup'))
+    # encrypted advice assertion: its own Issuer decides, not the enclosing assertion's
+    for inner_iss, key in itertools.product(('A', 'B', 'unknown'), KEYS[:5]):
+        out.append(('one-signing', 'A', inner_iss, key, 'none', 'advice-enc'))
     if thorough:
         # response and assertion claim different issuers
         for layout, i1, i2, key, what in itertools.product(('one-signing', 'none'), ('A', 'B'), ('A', 'B', 'unknown'), KEYS, ('response', 'assertion')):
@@ -60,21 +70,57 @@ def evaluate(cell):
     env.Clock.set(env.BASE)
     spec = keyinfo_spec(ki, key)
     kw = dict(resp=dict(issuer=ISSUERS[riss]), assertions=[dict(issuer=ISSUERS[aiss])])
-    if what == 'response':
+    if what.startswith('response'):
         kw.update(sign_resp=key, resp_keyinfo=spec)
-    else:
+    elif what.startswith('assertion'):
         kw.update(sign_ass=key, ass_keyinfo=spec)
-    xml = forge.build(env.BASE, **kw)
+    prime = what.endswith('@after-encryption-lookup')
+    if what == 'advice-enc':
+        xml = build_advice(aiss, key)
+    else:
+        xml = forge.build(env.BASE, **kw)
     out = []
     for only in ONLY:
-        obs = oracle.accept_response(sp_for(layout, only), xml)
-        out.append((only, obs['accept'], obs.get('exc')))
+        if prime:
+            _sp.pop((layout, only), None)
+        sp = sp_for(layout, only)
+        if prime:
+            try:
+                sp.metadata.certs(IDP_A, 'any', 'encryption')
+            except Exception:
+                pass
+        obs = oracle.accept_response(sp, xml)
+        if prime:
+            _sp.pop((layout, only), None)
+        acc = obs['accept']
+        if what == 'advice-enc' and acc:
+            # the advice assertion's attribute is the observable: was it adopted into the identity?
+            acc = 'advice-secret' in repr(obs['identity'].get('ava'))
+        out.append((only, acc, obs.get('exc')))
     return out
+
+
+def build_advice(inner_iss, key):
+    """Response signed by A; outer assertion from A carries an encrypted advice assertion (Issuer inner_iss) signed
+    with `key`."""
+    from vp import xmlsec
+    now = env.BASE
+    inner = forge.assertion(now, aid='ADV1', issuer=ISSUERS[inner_iss], sign=True, attrs=(('adviceAttr', ('advice-secret',)),))
+    outer = forge.assertion(now, aid='A1', advice='<saml:EncryptedAssertion>%s</saml:EncryptedAssertion>' % inner)
+    x = forge.response(now, [outer], sign=True)
+    x = forge.sign(x, 'ADV1', key)
+    doc = xmlsec.parse_doc(x)
+    for e in xmlsec.dfs(doc.documentElement):
+        if e.localName == 'Assertion' and e.getAttribute('ID') == 'ADV1':
+            xmlsec.encrypt_node(doc, e, forge.enc_template(), world.pub('spXenc1'))
+            break
+    x = doc.documentElement.toxml()
+    return forge.sign(x, 'R1', 'idpA')
 
 
 def allowed(cell, only):
     layout, riss, aiss, key, ki, what = cell
-    iss = riss if what == 'response' else aiss
+    iss = riss if what.startswith('response') else aiss
     K = metadata_keys(layout, iss)
     if key in K:
         return True
